@@ -15,7 +15,7 @@ out = tempfile.mkdtemp(prefix="ft-bo-")
 res = {"patch": patch, "ran": []}
 try:
     assert sh(f"git -C /repo worktree add --detach {wt} HEAD").returncode == 0
-    ap = sh(f"git -C {wt} apply {patch}")
+    ap = sh(f"git -C {wt} apply --3way {patch}")
     assert ap.returncode == 0, ap.stdout
     if not os.environ.get("SKIP_BASELINE"):
         b = sh(f"FT_REPO={wt} {V}/tools/baseline_check.py")
